@@ -74,13 +74,14 @@ static const volatile void *g_block = nullptr;
 static int g_live = 0, g_frees = 0;
 static thread_local int g_in_hook = 0;
 
+// only the constructing thread (thread 0) records: other OS threads may still be starting up concurrently
 static void on_malloc(const volatile void *p, size_t n) {
-    if (!g_recording || g_in_hook) return;
+    if (!g_recording || g_in_hook || vshim::self_id != 0) return;
     if (g_nallocs < 256) g_allocs[g_nallocs++] = {p, n};
 }
 static void on_free(const volatile void *p) {
     if (g_in_hook) return;
-    if (g_recording) {
+    if (g_recording && vshim::self_id == 0) {
         for (int i = 0; i < g_nallocs; i++) if (g_allocs[i].p == p) g_allocs[i].p = nullptr;
     }
     if (p && p == g_block) {
@@ -99,6 +100,7 @@ static void track_state(const void *state) {
         auto b = (const char *)g_allocs[i].p;
         if (b && b <= a && a < b + g_allocs[i].n) { g_block = g_allocs[i].p; g_live = 1; return; }
     }
+    std::cout << "untracked-state\n";   // harness failure, never expected
 }
 
 template <typename T>
